@@ -22,6 +22,7 @@ from phyclone.smc.kernels import BootstrapKernel, FullyAdaptedKernel, SemiAdapte
 from phyclone.smc.samplers import UnconditionalSMCSampler
 from phyclone.smc.utils import RootPermutationDistribution
 from phyclone.tree import FSCRPDistribution, Tree, TreeJointDistribution
+from phyclone.tree.utils import compute_log_S, _convolve_two_children
 from phyclone.utils import Timer
 from phyclone.utils.dev import clear_proposal_dist_caches
 
@@ -196,6 +197,11 @@ def run_phyclone_chain(
     subtree_update_prob,
 ):
     _verif_chain_delay("PHYCLONE_VERIF_START_DELAYS", chain_num)
+    # a worker process may execute several chains one after another: every chain starts from empty caches, so that
+    # its trace does not depend on which chains shared the process
+    clear_proposal_dist_caches()
+    compute_log_S.cache_clear()
+    _convolve_two_children.cache_clear()
     tree_dist = TreeJointDistribution(FSCRPDistribution(concentration_value))
     kernel = setup_kernel(outlier_prob, proposal, rng, tree_dist)
     samplers = setup_samplers(kernel, num_particles, outlier_prob, resample_threshold, rng, tree_dist)
